@@ -485,5 +485,753 @@ theorem rel_after_set {H : α → α → α} {dflt : α} {t : Pm α D} {s : Idea
     · simp [hjk]
     · rw [if_neg hjk, if_neg hjk, h4]; exact hrel.flags j hj'
 
+
+/-! ## `treeSetRange`: subtrees -/
+
+/-- `k` is a node of the subtree of height `f` below `(d, i)` -/
+def InSub (f d i : Nat) (k : Nat × Nat) : Prop :=
+  d ≤ k.1 ∧ k.1 ≤ d + f ∧ k.2 / 2 ^ (k.1 - d) = i
+
+theorem InSub_self (f d i : Nat) : InSub f d i (d, i) := by
+  simp [InSub]
+
+theorem InSub_zero (d i : Nat) (k : Nat × Nat) : InSub 0 d i k ↔ k = (d, i) := by
+  obtain ⟨a, b⟩ := k
+  simp only [InSub, Prod.mk.injEq]
+  constructor
+  · rintro ⟨h1, h2, h3⟩
+    have : a = d := by omega
+    subst this
+    simp at h3
+    exact ⟨rfl, h3⟩
+  · rintro ⟨rfl, rfl⟩
+    simp
+
+theorem InSub_succ (f d i : Nat) (k : Nat × Nat) :
+    InSub (f + 1) d i k ↔ k = (d, i) ∨ InSub f (d + 1) (2 * i) k ∨ InSub f (d + 1) (2 * i + 1) k := by
+  obtain ⟨a, b⟩ := k
+  simp only [InSub, Prod.mk.injEq]
+  constructor
+  · rintro ⟨h1, h2, h3⟩
+    by_cases ha : a = d
+    · subst ha
+      simp at h3
+      exact Or.inl ⟨rfl, h3⟩
+    · right
+      have e : a - d = (a - (d + 1)) + 1 := by omega
+      rw [e, Nat.pow_succ, ← Nat.div_div_eq_div_mul] at h3
+      by_cases hx : b / 2 ^ (a - (d + 1)) = 2 * i
+      · exact Or.inl ⟨by omega, by omega, hx⟩
+      · exact Or.inr ⟨by omega, by omega, by omega⟩
+  · rintro (⟨rfl, rfl⟩ | ⟨h1, h2, h3⟩ | ⟨h1, h2, h3⟩)
+    · simp
+    · have e : a - d = (a - (d + 1)) + 1 := by omega
+      refine ⟨by omega, by omega, ?_⟩
+      rw [e, Nat.pow_succ, ← Nat.div_div_eq_div_mul, h3]; omega
+    · have e : a - d = (a - (d + 1)) + 1 := by omega
+      refine ⟨by omega, by omega, ?_⟩
+      rw [e, Nat.pow_succ, ← Nat.div_div_eq_div_mul, h3]; omega
+
+theorem InSub_disj (f d i : Nat) (k : Nat × Nat) (h : InSub f (d + 1) (2 * i) k) :
+    ¬ InSub f (d + 1) (2 * i + 1) k := by
+  intro h'
+  have := h.2.2
+  have := h'.2.2
+  omega
+
+theorem not_InSub_up (f d c i : Nat) : ¬ InSub f (d + 1) c (d, i) := by
+  intro h
+  have : d + 1 ≤ d := h.1
+  omega
+
+theorem InSub_level (f d c c' : Nat) (h : InSub f d c (d, c')) : c' = c := by
+  have := h.2.2
+  simpa using this
+
+theorem InSub_child (f d i c : Nat) (k : Nat × Nat) (hc : c = 2 * i ∨ c = 2 * i + 1)
+    (h : InSub f (d + 1) c k) : InSub (f + 1) d i k ∧ k ≠ (d, i) := by
+  refine ⟨?_, ?_⟩
+  · rw [InSub_succ]
+    rcases hc with rfl | rfl
+    · exact Or.inr (Or.inl h)
+    · exact Or.inr (Or.inr h)
+  · intro hk
+    subst hk
+    exact not_InSub_up f d c i h
+
+
+/-! ## `treeSetRange`: the filled map -/
+
+variable {S : Type} [MapLike S (Nat × Nat) α] [LawfulMapLike S (Nat × Nat) α]
+
+/-- leaves after the range write -/
+def newLeaf (t : Pm α D) (L : Array α) (from_ : Nat) (j : Nat) : α :=
+  if from_ ≤ j then (L[j - from_]?).getD (t.getElem t.depth j) else t.getElem t.depth j
+
+/-- no leaf below `(·, i)` (height `f`) is written -/
+def NoChange (L : Array α) (from_ f i : Nat) : Prop :=
+  ∀ j, i * 2 ^ f ≤ j → j < (i + 1) * 2 ^ f → j < from_ ∨ from_ + L.size ≤ j
+
+theorem newLeaf_old (t : Pm α D) (L : Array α) (from_ j : Nat) (h : j < from_ ∨ from_ + L.size ≤ j) :
+    newLeaf t L from_ j = t.getElem t.depth j := by
+  unfold newLeaf
+  split
+  · have : L.size ≤ j - from_ := by omega
+    rw [Array.getElem?_eq_none this]; rfl
+  · rfl
+
+theorem newLeaf_new (t : Pm α D) (L : Array α) (from_ j : Nat) (v : α) (h1 : from_ ≤ j)
+    (h : L[j - from_]? = some v) : newLeaf t L from_ j = v := by
+  unfold newLeaf
+  rw [if_pos h1, h]; rfl
+
+/-- shape of the map after `fillNodes`: current values on the touched paths, new leaves, untouched
+    subtrees cut off at their root -/
+def Good (t : Pm α D) (L : Array α) (from_ : Nat) (sub : S) : Nat → Nat → Nat → Prop
+  | 0, d, i => MapLike.get? sub (d, i) = some (newLeaf t L from_ i)
+  | f+1, d, i => MapLike.get? sub (d, i) = some (t.getElem d i) ∧
+      ((NoChange L from_ (f + 1) i ∧ ∀ k, InSub (f + 1) d i k → k ≠ (d, i) → MapLike.get? sub k = none) ∨
+       (MapLike.get? sub (d + 1, 2 * i) ≠ none ∧ Good t L from_ sub f (d + 1) (2 * i) ∧
+          Good t L from_ sub f (d + 1) (2 * i + 1)))
+
+theorem Good_congr (t : Pm α D) (L : Array α) (from_ : Nat) (sub sub' : S) :
+    ∀ (f d i : Nat), (∀ k, InSub f d i k → MapLike.get? sub' k = MapLike.get? sub k) →
+      Good t L from_ sub f d i → Good t L from_ sub' f d i
+  | 0, d, i, h, hg => by
+    simp only [Good] at hg ⊢
+    rw [h _ (InSub_self 0 d i)]; exact hg
+  | f+1, d, i, h, hg => by
+    simp only [Good] at hg ⊢
+    obtain ⟨h1, h2⟩ := hg
+    refine ⟨by rw [h _ (InSub_self _ d i)]; exact h1, ?_⟩
+    rcases h2 with ⟨h3, h4⟩ | ⟨h3, h4, h5⟩
+    · left
+      exact ⟨h3, fun k hk hne => by rw [h k hk]; exact h4 k hk hne⟩
+    · right
+      refine ⟨?_, ?_, ?_⟩
+      · rw [h _ (InSub_child f d i (2 * i) _ (Or.inl rfl) (InSub_self _ _ _)).1]; exact h3
+      · exact Good_congr t L from_ sub sub' f (d + 1) (2 * i)
+          (fun k hk => h k (InSub_child f d i (2 * i) k (Or.inl rfl) hk).1) h4
+      · exact Good_congr t L from_ sub sub' f (d + 1) (2 * i + 1)
+          (fun k hk => h k (InSub_child f d i (2 * i + 1) k (Or.inr rfl) hk).1) h5
+
+theorem Good_some (t : Pm α D) (L : Array α) (from_ : Nat) (sub : S) (f d i : Nat)
+    (h : Good t L from_ sub f d i) : MapLike.get? sub (d, i) ≠ none := by
+  cases f with
+  | zero => simp only [Good] at h; rw [h]; simp
+  | succ f => simp only [Good] at h; rw [h.1]; simp
+
+theorem Good_of_quiet (t : Pm α D) (L : Array α) (from_ : Nat) (sub : S) (f d i : Nat)
+    (hd : d + f = t.depth) (hget : MapLike.get? sub (d, i) = some (t.getElem d i))
+    (habs : ∀ k, InSub f d i k → k ≠ (d, i) → MapLike.get? sub k = none)
+    (hnc : NoChange L from_ f i) : Good t L from_ sub f d i := by
+  cases f with
+  | zero =>
+    simp only [Good]
+    have : d = t.depth := by omega
+    rw [newLeaf_old t L from_ i (hnc i (by simp) (by simp)), hget, this]
+  | succ f =>
+    simp only [Good]
+    exact ⟨hget, Or.inl ⟨hnc, habs⟩⟩
+
+
+theorem fillNodes_succ_eq (t : Pm α D) (L : Array α) (from_ f d i start end_ : Nat) (sub : S)
+    (ks : List (Nat × Nat)) :
+    fillNodes t L from_ (f + 1) d i start end_ (sub, ks) =
+      match (if start < 2 ^ f then
+          fillNodes t L from_ f (d + 1) (2 * i) start (min end_ (2 ^ f))
+            (MapLike.insert (MapLike.insert sub (d + 1, 2 * i) (t.getElem (d + 1) (2 * i)))
+              (d + 1, 2 * i + 1) (t.getElem (d + 1) (2 * i + 1)), (d + 1, 2 * i + 1) :: (d + 1, 2 * i) :: ks)
+        else some (MapLike.insert (MapLike.insert sub (d + 1, 2 * i) (t.getElem (d + 1) (2 * i)))
+              (d + 1, 2 * i + 1) (t.getElem (d + 1) (2 * i + 1)), (d + 1, 2 * i + 1) :: (d + 1, 2 * i) :: ks)) with
+      | none => none
+      | some acc =>
+        if end_ > 2 ^ f then fillNodes t L from_ f (d + 1) (2 * i + 1) 0 (end_ - 2 ^ f) acc else some acc := by
+  rw [fillNodes]
+  rfl
+
+theorem fillNodes_spec (t : Pm α D) (L : Array α) (from_ : Nat) :
+    ∀ (f d i start end_ : Nat) (sub : S) (ks : List (Nat × Nat)),
+      d + f = t.depth →
+      start ≤ from_ - i * 2 ^ f → end_ = min (from_ + L.size - i * 2 ^ f) (2 ^ f) →
+      i * 2 ^ f < from_ + L.size →
+      MapLike.get? sub (d, i) = some (t.getElem d i) →
+      (∀ k, InSub f d i k → k ≠ (d, i) → MapLike.get? sub k = none) →
+      (∀ k, MapLike.get? sub k ≠ none ↔ k ∈ ks) →
+      ∃ sub' ks', fillNodes t L from_ f d i start end_ (sub, ks) = some (sub', ks') ∧
+        (∀ k, ¬ InSub f d i k → MapLike.get? sub' k = MapLike.get? sub k) ∧
+        Good t L from_ sub' f d i ∧ (∀ k, MapLike.get? sub' k ≠ none ↔ k ∈ ks')
+  | 0, d, i, start, end_, sub, ks, hd, hs, he, hb, hget, habs, hdom => by
+    rw [fillNodes]
+    simp only [Nat.pow_zero, Nat.mul_one] at hs he hb
+    by_cases hi : i ≥ from_
+    · have hlt : i - from_ < L.size := by omega
+      rw [if_pos hi, Array.getElem?_eq_getElem hlt]
+      refine ⟨_, _, rfl, ?_, ?_, ?_⟩
+      · intro k hk
+        rw [InSub_zero] at hk
+        rw [LawfulMapLike.get?_insert, if_neg (fun hc => hk hc.symm)]
+      · simp only [Good]
+        rw [LawfulMapLike.get?_insert, if_pos rfl,
+          newLeaf_new t L from_ i _ hi (Array.getElem?_eq_getElem hlt)]
+      · intro k
+        rw [LawfulMapLike.get?_insert, List.mem_cons, ← hdom k]
+        by_cases hk : (d, i) = k
+        · simp [hk]
+        · rw [if_neg hk]
+          constructor
+          · exact Or.inr
+          · rintro (h | h)
+            · exact absurd h.symm hk
+            · exact h
+    · rw [if_neg hi]
+      refine ⟨_, _, rfl, fun _ _ => rfl, ?_, hdom⟩
+      simp only [Good]
+      have : d = t.depth := by omega
+      rw [newLeaf_old t L from_ i (Or.inl (by omega)), hget, this]
+  | f+1, d, i, start, end_, sub, ks, hd, hs, he, hb, hget, habs, hdom => by
+    -- arithmetic
+    have hp : 2 ^ (f + 1) = 2 * 2 ^ f := by rw [Nat.pow_succ]; omega
+    have e1 : 2 * i * 2 ^ f = i * 2 ^ (f + 1) := by rw [hp, Nat.mul_comm 2 i, Nat.mul_assoc]
+    have e2 : (2 * i + 1) * 2 ^ f = i * 2 ^ (f + 1) + 2 ^ f := by rw [Nat.add_mul, e1]; simp
+    have e3 : (2 * i + 1 + 1) * 2 ^ f = i * 2 ^ (f + 1) + 2 ^ f + 2 ^ f := by
+      rw [Nat.add_mul (2 * i + 1), e2]; simp
+    have hpos := Nat.two_pow_pos f
+    have he' : end_ = min (from_ + L.size - i * 2 ^ (f + 1)) (2 * 2 ^ f) := by
+      rw [he]; congr 1
+    clear he
+    have he := he'
+    -- the two children
+    let sub2 : S := MapLike.insert (MapLike.insert sub (d + 1, 2 * i) (t.getElem (d + 1) (2 * i)))
+              (d + 1, 2 * i + 1) (t.getElem (d + 1) (2 * i + 1))
+    let ks2 : List (Nat × Nat) := (d + 1, 2 * i + 1) :: (d + 1, 2 * i) :: ks
+    have hs2 : ∀ k, MapLike.get? sub2 k =
+        if (d + 1, 2 * i + 1) = k then some (t.getElem (d + 1) (2 * i + 1))
+        else if (d + 1, 2 * i) = k then some (t.getElem (d + 1) (2 * i)) else MapLike.get? sub k := by
+      intro k
+      show MapLike.get? (MapLike.insert (MapLike.insert sub _ _) _ _) k = _
+      rw [LawfulMapLike.get?_insert, LawfulMapLike.get?_insert]
+    have hdom2 : ∀ k, MapLike.get? sub2 k ≠ none ↔ k ∈ ks2 := by
+      intro k
+      rw [hs2]
+      show _ ↔ k ∈ (d + 1, 2 * i + 1) :: (d + 1, 2 * i) :: ks
+      rw [List.mem_cons, List.mem_cons, ← hdom k]
+      by_cases h1 : (d + 1, 2 * i + 1) = k
+      · simp [h1]
+      · rw [if_neg h1]
+        by_cases h0 : (d + 1, 2 * i) = k
+        · simp [h0]
+        · rw [if_neg h0]
+          constructor
+          · exact fun h => Or.inr (Or.inr h)
+          · rintro (h | h | h)
+            · exact absurd h.symm h1
+            · exact absurd h.symm h0
+            · exact h
+    have hs2out : ∀ k, k ≠ (d + 1, 2 * i) → k ≠ (d + 1, 2 * i + 1) →
+        MapLike.get? sub2 k = MapLike.get? sub k := by
+      intro k h0 h1
+      rw [hs2, if_neg (fun hc => h1 hc.symm), if_neg (fun hc => h0 hc.symm)]
+    have hget0 : MapLike.get? sub2 (d + 1, 2 * i) = some (t.getElem (d + 1) (2 * i)) := by
+      rw [hs2, if_neg (by simp), if_pos rfl]
+    have hget1 : MapLike.get? sub2 (d + 1, 2 * i + 1) = some (t.getElem (d + 1) (2 * i + 1)) := by
+      rw [hs2, if_pos rfl]
+    have habs2 : ∀ c, (c = 2 * i ∨ c = 2 * i + 1) → ∀ k, InSub f (d + 1) c k → k ≠ (d + 1, c) →
+        MapLike.get? sub2 k = none := by
+      intro c hc k hk hne
+      have hpar := InSub_child f d i c k hc hk
+      have hne' : ∀ c', k = (d + 1, c') → False := by
+        intro c' hk'
+        subst hk'
+        exact hne (by rw [InSub_level f (d + 1) c c' hk])
+      rw [hs2out k (fun h => hne' _ h) (fun h => hne' _ h)]
+      exact habs k hpar.1 hpar.2
+    -- left phase
+    have hleft : ∃ s1 k1, (if start < 2 ^ f then
+          fillNodes t L from_ f (d + 1) (2 * i) start (min end_ (2 ^ f)) (sub2, ks2)
+        else some (sub2, ks2)) = some (s1, k1) ∧
+        (∀ k, ¬ InSub f (d + 1) (2 * i) k → MapLike.get? s1 k = MapLike.get? sub2 k) ∧
+        Good t L from_ s1 f (d + 1) (2 * i) ∧ (∀ k, MapLike.get? s1 k ≠ none ↔ k ∈ k1) := by
+      by_cases hc : start < 2 ^ f
+      · rw [if_pos hc]
+        exact fillNodes_spec t L from_ f (d + 1) (2 * i) start (min end_ (2 ^ f)) sub2 ks2 (by omega)
+          (by rw [e1]; exact hs) (by rw [e1, he]; omega) (by rw [e1]; exact hb) hget0
+          (habs2 (2 * i) (Or.inl rfl)) hdom2
+      · rw [if_neg hc]
+        refine ⟨sub2, ks2, rfl, fun _ _ => rfl, ?_, hdom2⟩
+        apply Good_of_quiet t L from_ sub2 f (d + 1) (2 * i) (by omega) hget0 (habs2 (2 * i) (Or.inl rfl))
+        intro j h1 h2
+        rw [e1] at h1; rw [e2] at h2
+        left; omega
+    obtain ⟨s1, k1, hr1, hout1, hgood1, hdom1⟩ := hleft
+    -- right phase
+    have hright : ∃ s2 k2, (if end_ > 2 ^ f then
+          fillNodes t L from_ f (d + 1) (2 * i + 1) 0 (end_ - 2 ^ f) (s1, k1)
+        else some (s1, k1)) = some (s2, k2) ∧
+        (∀ k, ¬ InSub f (d + 1) (2 * i + 1) k → MapLike.get? s2 k = MapLike.get? s1 k) ∧
+        Good t L from_ s2 f (d + 1) (2 * i + 1) ∧ (∀ k, MapLike.get? s2 k ≠ none ↔ k ∈ k2) := by
+      have hget1' : MapLike.get? s1 (d + 1, 2 * i + 1) = some (t.getElem (d + 1) (2 * i + 1)) := by
+        rw [hout1 _ (fun h => by have := InSub_level _ _ _ _ h; omega)]; exact hget1
+      have habs1 : ∀ k, InSub f (d + 1) (2 * i + 1) k → k ≠ (d + 1, 2 * i + 1) →
+          MapLike.get? s1 k = none := by
+        intro k hk hne
+        rw [hout1 k (fun h => InSub_disj f d i k h hk)]
+        exact habs2 (2 * i + 1) (Or.inr rfl) k hk hne
+      by_cases hc : end_ > 2 ^ f
+      · rw [if_pos hc]
+        exact fillNodes_spec t L from_ f (d + 1) (2 * i + 1) 0 (end_ - 2 ^ f) s1 k1 (by omega)
+          (Nat.zero_le _) (by rw [e2, he]; omega) (by rw [e2]; omega) hget1' habs1 hdom1
+      · rw [if_neg hc]
+        refine ⟨s1, k1, rfl, fun _ _ => rfl, ?_, hdom1⟩
+        apply Good_of_quiet t L from_ s1 f (d + 1) (2 * i + 1) (by omega) hget1' habs1
+        intro j h1 h2
+        rw [e2] at h1; rw [e3] at h2
+        right; omega
+    obtain ⟨s2, k2, hr2, hout2, hgood2, hdom2'⟩ := hright
+    refine ⟨s2, k2, ?_, ?_, ?_, hdom2'⟩
+    · rw [fillNodes_succ_eq]
+      show (match (if start < 2 ^ f then
+          fillNodes t L from_ f (d + 1) (2 * i) start (min end_ (2 ^ f)) (sub2, ks2)
+        else some (sub2, ks2)) with
+        | none => none
+        | some acc =>
+          if end_ > 2 ^ f then fillNodes t L from_ f (d + 1) (2 * i + 1) 0 (end_ - 2 ^ f) acc
+          else some acc) = _
+      rw [hr1]
+      exact hr2
+    · intro k hk
+      rw [InSub_succ] at hk
+      have h0 : ¬ InSub f (d + 1) (2 * i) k := fun h => hk (Or.inr (Or.inl h))
+      have h1 : ¬ InSub f (d + 1) (2 * i + 1) k := fun h => hk (Or.inr (Or.inr h))
+      rw [hout2 k h1, hout1 k h0]
+      exact hs2out k (fun h => h0 (h ▸ InSub_self _ _ _)) (fun h => h1 (h ▸ InSub_self _ _ _))
+    · simp only [Good]
+      refine ⟨?_, Or.inr ⟨?_, ?_, hgood2⟩⟩
+      · rw [hout2 _ (not_InSub_up _ _ _ _), hout1 _ (not_InSub_up _ _ _ _),
+          hs2out _ (by simp) (by simp)]
+        exact hget
+      · rw [hout2 _ (InSub_disj f d i _ (InSub_self _ _ _))]
+        exact Good_some t L from_ s1 f (d + 1) (2 * i) hgood1
+      · exact Good_congr t L from_ s1 s2 f (d + 1) (2 * i)
+          (fun k hk => hout2 k (InSub_disj f d i k hk)) hgood1
+
+
+/-! ## `treeSetRange`: recomputation -/
+
+theorem NoChange_child (L : Array α) (from_ f i : Nat) (h : NoChange L from_ (f + 1) i) :
+    NoChange L from_ f (2 * i) ∧ NoChange L from_ f (2 * i + 1) := by
+  have hp : 2 ^ (f + 1) = 2 * 2 ^ f := by rw [Nat.pow_succ]; omega
+  have e1 : 2 * i * 2 ^ f = i * 2 ^ (f + 1) := by rw [hp, Nat.mul_comm 2 i, Nat.mul_assoc]
+  have e2 : (2 * i + 1) * 2 ^ f = i * 2 ^ (f + 1) + 2 ^ f := by rw [Nat.add_mul, e1]; simp
+  have e3 : (2 * i + 1 + 1) * 2 ^ f = i * 2 ^ (f + 1) + 2 ^ f + 2 ^ f := by
+    rw [Nat.add_mul (2 * i + 1), e2]; simp
+  have e4 : (i + 1) * 2 ^ (f + 1) = i * 2 ^ (f + 1) + 2 ^ f + 2 ^ f := by
+    rw [Nat.add_mul i 1, hp]; omega
+  have hpos := Nat.two_pow_pos f
+  constructor
+  · intro j h1 h2
+    rw [e1] at h1; rw [e2] at h2
+    exact h j h1 (by omega)
+  · intro j h1 h2
+    rw [e2] at h1; rw [e3] at h2
+    exact h j (by omega) (by omega)
+
+/-- an untouched subtree already holds the values of the updated tree -/
+theorem quiet_node (H : α → α → α) (t : Pm α D) (L : Array α) (from_ : Nat)
+    (cons : ∀ l i, l < t.depth → i < 2 ^ l →
+      t.getElem l i = H (t.getElem (l + 1) (2 * i)) (t.getElem (l + 1) (2 * i + 1))) :
+    ∀ (f d i : Nat), d + f = t.depth → i < 2 ^ d → NoChange L from_ f i →
+      ∀ k, InSub f d i k → t.getElem k.1 k.2 = Ideal.nodeAux H (newLeaf t L from_) (t.depth - k.1) k.2
+  | 0, d, i, hd, _, hnc, k, hk => by
+    rw [InSub_zero] at hk
+    subst hk
+    have : d = t.depth := by omega
+    subst this
+    simp only [Nat.sub_self, Ideal.nodeAux]
+    rw [newLeaf_old t L from_ i (hnc i (by simp) (by simp))]
+  | f+1, d, i, hd, hi, hnc, k, hk => by
+    have hp : 2 ^ (d + 1) = 2 * 2 ^ d := by rw [Nat.pow_succ]; omega
+    obtain ⟨hn0, hn1⟩ := NoChange_child L from_ f i hnc
+    rw [InSub_succ] at hk
+    rcases hk with hk | hk | hk
+    · subst hk
+      have h0 := quiet_node H t L from_ cons f (d + 1) (2 * i) (by omega) (by omega) hn0 _ (InSub_self _ _ _)
+      have h1 := quiet_node H t L from_ cons f (d + 1) (2 * i + 1) (by omega) (by omega) hn1 _ (InSub_self _ _ _)
+      simp only at h0 h1 ⊢
+      have e : t.depth - d = (t.depth - (d + 1)) + 1 := by omega
+      rw [cons d i (by omega) hi, h0, h1, e]
+      rfl
+    · exact quiet_node H t L from_ cons f (d + 1) (2 * i) (by omega) (by omega) hn0 k hk
+    · exact quiet_node H t L from_ cons f (d + 1) (2 * i + 1) (by omega) (by omega) hn1 k hk
+
+theorem batchRecalc_spec (H : α → α → α) (t : Pm α D) (L : Array α) (from_ : Nat)
+    (cons : ∀ l i, l < t.depth → i < 2 ^ l →
+      t.getElem l i = H (t.getElem (l + 1) (2 * i)) (t.getElem (l + 1) (2 * i + 1))) :
+    ∀ (f d i : Nat) (sub : S) (ks : List (Nat × Nat)), d + f = t.depth → i < 2 ^ d →
+      Good t L from_ sub f d i →
+      ∃ sub2 ks2, batchRecalc H f d i sub ks =
+          some (Ideal.nodeAux H (newLeaf t L from_) f i, sub2, ks2) ∧
+        (∀ k, ¬ InSub f d i k → MapLike.get? sub2 k = MapLike.get? sub k) ∧
+        (∀ k, MapLike.get? sub2 k = none ↔ MapLike.get? sub k = none) ∧
+        (∀ k, InSub f d i k → (MapLike.get? sub2 k).getD (t.getElem k.1 k.2) =
+          Ideal.nodeAux H (newLeaf t L from_) (t.depth - k.1) k.2)
+  | 0, d, i, sub, ks, hd, _, hg => by
+    simp only [Good] at hg
+    refine ⟨sub, ks, ?_, fun _ _ => rfl, fun _ => Iff.rfl, ?_⟩
+    · rw [batchRecalc, hg]; rfl
+    · intro k hk
+      rw [InSub_zero] at hk
+      subst hk
+      have : d = t.depth := by omega
+      subst this
+      simp only [hg, Nat.sub_self, Ideal.nodeAux, Option.getD_some]
+  | f+1, d, i, sub, ks, hd, hi, hg => by
+    have hp : 2 ^ (d + 1) = 2 * 2 ^ d := by rw [Nat.pow_succ]; omega
+    simp only [Good] at hg
+    obtain ⟨hget, hq | ⟨hc, hg0, hg1⟩⟩ := hg
+    · -- untouched subtree
+      obtain ⟨hnc, habs⟩ := hq
+      have hself := quiet_node H t L from_ cons (f + 1) d i hd hi hnc _ (InSub_self _ _ _)
+      simp only at hself
+      have e : t.depth - d = f + 1 := by omega
+      rw [e] at hself
+      have hnone : MapLike.get? sub (d + 1, 2 * i) = none :=
+        habs _ (InSub_child f d i (2 * i) _ (Or.inl rfl) (InSub_self _ _ _)).1
+          (InSub_child f d i (2 * i) _ (Or.inl rfl) (InSub_self _ _ _)).2
+      refine ⟨sub, ks, ?_, fun _ _ => rfl, fun _ => Iff.rfl, ?_⟩
+      · rw [batchRecalc, hnone]
+        simp only [hget, Option.map_some, hself]
+      · intro k hk
+        by_cases hkk : k = (d, i)
+        · subst hkk
+          simp only [hget, Option.getD_some, e, hself]
+        · rw [habs k hk hkk]
+          exact quiet_node H t L from_ cons (f + 1) d i hd hi hnc k hk
+    · -- recomputed node
+      obtain ⟨x, hx⟩ := Option.ne_none_iff_exists'.mp hc
+      obtain ⟨s1, k1, hr1, hout1, hnone1, hval1⟩ :=
+        batchRecalc_spec H t L from_ cons f (d + 1) (2 * i) sub ks (by omega) (by omega) hg0
+      have hg1' : Good t L from_ s1 f (d + 1) (2 * i + 1) :=
+        Good_congr t L from_ sub s1 f (d + 1) (2 * i + 1)
+          (fun k hk => hout1 k (fun h => InSub_disj f d i k h hk)) hg1
+      obtain ⟨s2, k2, hr2, hout2, hnone2, hval2⟩ :=
+        batchRecalc_spec H t L from_ cons f (d + 1) (2 * i + 1) s1 k1 (by omega) (by omega) hg1'
+      refine ⟨MapLike.insert s2 (d, i) (Ideal.nodeAux H (newLeaf t L from_) (f + 1) i), k2, ?_, ?_, ?_, ?_⟩
+      · rw [batchRecalc, hx]
+        simp only [hr1, hr2]
+        rfl
+      · intro k hk
+        rw [InSub_succ] at hk
+        have hne : ¬ ((d, i) = k) := fun h => hk (Or.inl h.symm)
+        rw [LawfulMapLike.get?_insert, if_neg hne,
+          hout2 k (fun h => hk (Or.inr (Or.inr h))), hout1 k (fun h => hk (Or.inr (Or.inl h)))]
+      · intro k
+        rw [LawfulMapLike.get?_insert]
+        by_cases hk : (d, i) = k
+        · subst hk
+          simp [hget]
+        · rw [if_neg hk, hnone2, hnone1]
+      · intro k hk
+        rw [LawfulMapLike.get?_insert]
+        rw [InSub_succ] at hk
+        rcases hk with hk | hk | hk
+        · subst hk
+          have e : t.depth - d = f + 1 := by omega
+          simp only [if_true, Option.getD_some, e]
+        · have hne : ¬ ((d, i) = k) := fun h => not_InSub_up f d (2 * i) i (h ▸ hk)
+          rw [if_neg hne, hout2 k (InSub_disj f d i k hk)]
+          exact hval1 k hk
+        · have hne : ¬ ((d, i) = k) := fun h => not_InSub_up f d (2 * i + 1) i (h ▸ hk)
+          rw [if_neg hne]
+          exact hval2 k hk
+
+
+/-! ## `treeSetRange`: the batch write -/
+
+/-- the state after a successful batch write -/
+def batchKv (t : Pm α D) (kvs : List (PmKey × PmVal α)) : Pm α D :=
+  { t with db := { t.db with kv := kvs.foldl (fun m kv => MapLike.insert m kv.1 kv.2) t.db.kv,
+                             calls := t.db.calls + 1 } }
+
+theorem putBatch_ok (t : Pm α D) (kvs : List (PmKey × PmVal α)) (h : t.db.failAt = none) :
+    putBatch kvs t = (t.batchKv kvs, .ok ()) := by
+  unfold putBatch batchKv
+  simp [h]
+
+theorem foldl_insert_node (g : Nat × Nat → Option α) (d i : Nat) :
+    ∀ (ks : List (Nat × Nat)) (m : D),
+      MapLike.get? ((ks.filterMap (fun k => (g k).map (fun v => (PmKey.node k.1 k.2, PmVal.fr v)))).foldl
+        (fun m kv => MapLike.insert m kv.1 kv.2) m) (PmKey.node d i) =
+      if (d, i) ∈ ks ∧ g (d, i) ≠ none then (g (d, i)).map PmVal.fr else MapLike.get? m (PmKey.node d i)
+  | [], m => by simp
+  | k :: r, m => by
+    cases hg : g k with
+    | none =>
+      rw [List.filterMap_cons_none (by rw [hg]; rfl), foldl_insert_node g d i r m]
+      by_cases hk : (d, i) = k
+      · subst hk; simp [hg]
+      · simp [hk]
+    | some v =>
+      rw [List.filterMap_cons_some (by rw [hg]; rfl), List.foldl_cons, foldl_insert_node g d i r _,
+        LawfulMapLike.get?_insert]
+      by_cases hk : (d, i) = k
+      · subst hk
+        simp [hg]
+      · have : ¬ (PmKey.node k.1 k.2 = PmKey.node d i) := by
+          intro hc; injection hc with h1 h2
+          apply hk; rw [← h1, ← h2]
+        simp [hk, this]
+
+theorem foldl_insert_other (g : Nat × Nat → Option α) (key : PmKey) (hkey : ∀ d i, key ≠ PmKey.node d i) :
+    ∀ (ks : List (Nat × Nat)) (m : D),
+      MapLike.get? ((ks.filterMap (fun k => (g k).map (fun v => (PmKey.node k.1 k.2, PmVal.fr v)))).foldl
+        (fun m kv => MapLike.insert m kv.1 kv.2) m) key = MapLike.get? m key
+  | [], m => by simp
+  | k :: r, m => by
+    cases hg : g k with
+    | none =>
+      rw [List.filterMap_cons_none (by rw [hg]; rfl), foldl_insert_other g key hkey r m]
+    | some v =>
+      rw [List.filterMap_cons_some (by rw [hg]; rfl), List.foldl_cons, foldl_insert_other g key hkey r _,
+        LawfulMapLike.get?_insert, if_neg (fun h => hkey _ _ h.symm)]
+
+
+theorem treeSetRange_spec (S : Type) [MapLike S (Nat × Nat) α] [LawfulMapLike S (Nat × Nat) α]
+    (H : α → α → α) (t : Pm α D) (hinv : Inv H t) (start : Nat) (vs : List α) (hne : vs ≠ [])
+    (hfit : start + vs.length ≤ 2 ^ t.depth) :
+    ∃ t', treeSetRange S H start vs t = (t', .ok ()) ∧ Inv H t' ∧ t'.depth = t.depth ∧
+      t'.flags = t.flags ∧ t'.next = max t.next (start + vs.length) ∧
+      ∀ j, j < 2 ^ t.depth → t'.getElem t.depth j = newLeaf t vs.toArray start j := by
+  have hlen : 0 < vs.length := List.length_pos_iff.mpr hne
+  have hsz : vs.toArray.size = vs.length := by simp
+  let sub0 : S := MapLike.insert (MapLike.empty : S) (0, 0) t.root
+  have hs0 : ∀ k, MapLike.get? sub0 k = if (0, 0) = k then some t.root else none := by
+    intro k
+    show MapLike.get? (MapLike.insert _ _ _) k = _
+    rw [LawfulMapLike.get?_insert, LawfulMapLike.get?_empty]
+  -- phase 1
+  obtain ⟨sub1, keys, hfill, -, hgood, hdom⟩ :=
+    fillNodes_spec t vs.toArray start t.depth 0 0 start (start + vs.length) sub0 [(0, 0)]
+      (by omega) (by simp) (by rw [hsz]; simp; omega) (by rw [hsz]; omega)
+      (by rw [hs0, if_pos rfl, hinv.root_eq])
+      (fun k _ hk => by rw [hs0, if_neg (fun h => hk h.symm)])
+      (fun k => by
+        rw [hs0]
+        by_cases h : (0, 0) = k
+        · subst h; simp
+        · rw [if_neg h]; simp; exact fun hc => h hc.symm)
+  -- phase 2
+  obtain ⟨sub2, ks2, hbatch, -, hnone, hval⟩ :=
+    batchRecalc_spec H t vs.toArray start hinv.cons t.depth 0 0 sub1 [] (by omega) (by simp) hgood
+  let rootVal := Ideal.nodeAux H (newLeaf t vs.toArray start) t.depth 0
+  let kvs : List (PmKey × PmVal α) := keys.filterMap (fun k =>
+        (MapLike.get? sub2 k).map (fun v => (PmKey.node k.1 k.2, PmVal.fr v)))
+  let t1 := t.batchKv kvs
+  have hg1 : ∀ d i, d ≤ t.depth → i < 2 ^ d →
+      t1.getElem d i = Ideal.nodeAux H (newLeaf t vs.toArray start) (t.depth - d) i := by
+    intro d i hd hi
+    rw [← hval (d, i) ⟨Nat.zero_le _, by omega, by simp [Nat.div_eq_of_lt hi]⟩]
+    unfold getElem
+    show (match MapLike.get? (kvs.foldl (fun m kv => MapLike.insert m kv.1 kv.2) t.db.kv)
+        (PmKey.node d i) with
+      | some (.fr v) => v
+      | _ => t.cache[d]!) = _
+    rw [foldl_insert_node (fun k => MapLike.get? sub2 k) d i keys]
+    cases hc : MapLike.get? sub2 (d, i) with
+    | none => simp; rfl
+    | some v =>
+      have : (d, i) ∈ keys := by
+        rw [← hdom]
+        intro hn
+        rw [← hnone, hc] at hn
+        exact absurd hn (by simp)
+      simp [this]
+  have hcapn : ¬ (start + vs.length > t.cap) := by unfold cap; omega
+  unfold treeSetRange
+  have hfill' : fillNodes t vs.toArray start t.depth 0 0 start (start + vs.length)
+      ((MapLike.insert (MapLike.empty : S) (0, 0) t.root), [(0, 0)]) = some (sub1, keys) := hfill
+  simp only [hcapn, if_false, hfill', hbatch]
+  have hf1 : t1.db.failAt = none := hinv.nofail
+  let e := start + vs.length
+  let t2 : Pm α D := if e > t1.next then (t1.setNext e).putKv PmKey.nextKey (PmVal.num e) else t1
+  have h2 : (fun t : Pm α D =>
+        if start + vs.length > t.next then
+          ((modify fun t => { t with next := start + vs.length }) >>=
+              fun _ => put PmKey.nextKey (PmVal.num (start + vs.length))) t
+        else (t, Outcome.ok ())) t1 = (t2, .ok ()) := by
+    show (if e > t1.next then _ else _) = _
+    by_cases hc : e > t1.next
+    · rw [if_pos hc]
+      show _ = (if e > t1.next then _ else _, _)
+      rw [if_pos hc]
+      rw [PmM.bind_ok (show modify (fun t => { t with next := start + vs.length }) t1 = (t1.setNext e, .ok ()) from rfl)]
+      exact put_ok _ _ _ hf1
+    · rw [if_neg hc]
+      show _ = (if e > t1.next then _ else _, _)
+      rw [if_neg hc]
+  have hg2 : ∀ d i, t2.getElem d i = t1.getElem d i := by
+    intro d i
+    show Pm.getElem (if e > t1.next then _ else _) d i = _
+    split
+    · rw [getElem_putKv_other _ _ _ (by simp)]; rfl
+    · rfl
+  have hfr2 : Frame t t2 := by
+    show Frame t (if e > t1.next then _ else _)
+    have h01 : Frame t t1 := by
+      refine ⟨rfl, rfl, rfl, rfl, rfl, ?_⟩
+      exact foldl_insert_other (fun k => MapLike.get? sub2 k) PmKey.depthKey (by simp) keys t.db.kv
+    split
+    · have ha : Frame t1 (t1.setNext e) := ⟨rfl, rfl, rfl, rfl, rfl, rfl⟩
+      have hb : Frame (t1.setNext e) ((t1.setNext e).putKv PmKey.nextKey (PmVal.num e)) :=
+        Frame.putKv (t1.setNext e) PmKey.nextKey (PmVal.num e) (by simp)
+      exact h01.trans (ha.trans hb)
+    · exact h01
+  have hn2 : t2.next = max t.next e := by
+    show Pm.next (if e > t1.next then _ else _) = _
+    have : t1.next = t.next := rfl
+    split
+    · show e = _; omega
+    · omega
+  refine ⟨t2.setRoot rootVal, ?_, ⟨?_, ?_, ?_, ?_, ?_, ?_, ?_, ?_, ?_⟩, hfr2.depth, hfr2.flags, hn2, ?_⟩
+  · rw [PmM.bind_ok (putBatch_ok t kvs hinv.nofail)]
+    rw [PmM.bind_ok h2]
+    rfl
+  · show t2.cache.size = t2.depth + 1
+    rw [hfr2.cache, hfr2.depth]; exact hinv.csize
+  · show t2.flags.size = 2 ^ t2.depth
+    rw [hfr2.flags, hfr2.depth]; exact hinv.fsize
+  · show t2.next ≤ 2 ^ t2.depth
+    rw [hn2, hfr2.depth]
+    have := hinv.next_le
+    omega
+  · show 0 < t2.depth
+    rw [hfr2.depth]; exact hinv.depth_pos
+  · show t2.db.failAt = none
+    rw [hfr2.failAt]; exact hinv.nofail
+  · show rootVal = t2.getElem 0 0
+    rw [hg2, hg1 0 0 (Nat.zero_le _) (by simp)]
+    rfl
+  · intro l i hl hi
+    have hl' : l < t.depth := by
+      have : (t2.setRoot rootVal).depth = t.depth := hfr2.depth
+      omega
+    have hp : 2 ^ (l + 1) = 2 * 2 ^ l := by rw [Nat.pow_succ]; omega
+    show t2.getElem l i = H (t2.getElem (l + 1) (2 * i)) (t2.getElem (l + 1) (2 * i + 1))
+    rw [hg2, hg2, hg2, hg1 l i (by omega) hi, hg1 (l + 1) (2 * i) (by omega) (by omega),
+      hg1 (l + 1) (2 * i + 1) (by omega) (by omega)]
+    have e : t.depth - l = (t.depth - (l + 1)) + 1 := by omega
+    rw [e]; rfl
+  · show MapLike.get? t2.db.kv PmKey.depthKey = some (PmVal.num t2.depth)
+    rw [hfr2.depthKey, hfr2.depth]; exact hinv.stored_depth
+  · show MapLike.get? t2.db.kv PmKey.nextKey = some (PmVal.num t2.next)
+    rw [hn2]
+    show MapLike.get? (Pm.db (if e > t1.next then _ else _)).kv _ = _
+    have hn1 : t1.next = t.next := rfl
+    split
+    · rw [get?_putKv, if_pos rfl]
+      congr 2; omega
+    · have : MapLike.get? t1.db.kv PmKey.nextKey = MapLike.get? t.db.kv PmKey.nextKey :=
+        foldl_insert_other (fun k => MapLike.get? sub2 k) PmKey.nextKey (by simp) keys t.db.kv
+      rw [this, hinv.stored_next]
+      congr 2; omega
+  · intro j hj
+    show t2.getElem t.depth j = _
+    rw [hg2, hg1 t.depth j (Nat.le_refl _) hj, Nat.sub_self]
+    rfl
+
+
+/-! ## `setFlags` and `Ideal.writeMany` -/
+
+theorem setFlags_spec (v : Nat) :
+    ∀ (l : List Nat) (t : Pm α D), (∀ i ∈ l, i < t.flags.size) →
+      ∃ t', setFlags v l t = (t', .ok ()) ∧ (∀ H : α → α → α, Inv H t → Inv H t') ∧
+        t'.depth = t.depth ∧ t'.next = t.next ∧ (∀ d j, t'.getElem d j = t.getElem d j) ∧
+        t'.flags.size = t.flags.size ∧ (∀ j, t'.flags[j]! = if j ∈ l then v else t.flags[j]!)
+  | [], t, _ => ⟨t, rfl, fun _ h => h, rfl, rfl, fun _ _ => rfl, rfl, fun j => by simp⟩
+  | i :: r, t, h => by
+    have hi : i < t.flags.size := h i (by simp)
+    have hsz : (t.withFlag i v).flags.size = t.flags.size := by
+      show (t.flags.setIfInBounds i v).size = _
+      rw [Array.size_setIfInBounds]
+    obtain ⟨t', h1, h2, h3, h4, h5, h6, h7⟩ := setFlags_spec v r (t.withFlag i v)
+      (fun j hj => by rw [hsz]; exact h j (by simp [hj]))
+    refine ⟨t', ?_, fun H hinv => h2 H (hinv.withFlag i v), h3, h4, h5, h6.trans hsz, ?_⟩
+    · unfold setFlags
+      rw [PmM.bind_ok (setFlag_ok t i v hi)]
+      exact h1
+    · intro j
+      rw [h7, withFlag_get t i v j hi]
+      by_cases hjr : j ∈ r
+      · simp [hjr]
+      · by_cases hji : j = i
+        · simp [hji]
+        · simp [hjr, hji]
+
 end Pm
+
+variable {α : Type}
+
+theorem Ideal.pm_writeMany_depth (s : Ideal α) (start : Nat) (vs : List α) :
+    (s.writeMany start vs).depth = s.depth := by
+  induction vs generalizing s start with
+  | nil => rfl
+  | cons v r ih => simp only [Ideal.writeMany]; rw [ih]; rfl
+
+theorem Ideal.pm_writeMany_next (s : Ideal α) (start : Nat) (vs : List α) :
+    (s.writeMany start vs).next = s.next := by
+  induction vs generalizing s start with
+  | nil => rfl
+  | cons v r ih => simp only [Ideal.writeMany]; rw [ih]; rfl
+
+theorem Ideal.pm_leaf_write (dflt : α) (s : Ideal α) (i : Nat) (v : α) (j : Nat) :
+    (s.write i v).leaf dflt j = if j = i then v else s.leaf dflt j := by
+  unfold Ideal.leaf Ideal.write
+  simp only [List.lookup_cons]
+  by_cases h : j = i
+  · subst h; simp
+  · have : (j == i) = false := by simp [h]
+    rw [this, if_neg h]
+
+theorem Ideal.pm_writeMany_leaf (dflt : α) (s : Ideal α) (start : Nat) (vs : List α) (j : Nat) :
+    (s.writeMany start vs).leaf dflt j =
+      if start ≤ j then (vs[j - start]?).getD (s.leaf dflt j) else s.leaf dflt j := by
+  induction vs generalizing s start with
+  | nil => simp [Ideal.writeMany]
+  | cons v r ih =>
+    simp only [Ideal.writeMany]
+    rw [ih, Ideal.pm_leaf_write]
+    by_cases h1 : start + 1 ≤ j
+    · have h2 : start ≤ j := by omega
+      have e : j - start = (j - (start + 1)) + 1 := by omega
+      have h3 : ¬ (j = start) := by omega
+      rw [if_pos h1, if_pos h2, if_neg h3, e, List.getElem?_cons_succ]
+    · rw [if_neg h1]
+      by_cases h2 : j = start
+      · subst h2
+        simp
+      · have : ¬ (start ≤ j) := by omega
+        rw [if_neg h2, if_neg this]
+
+theorem Ideal.pm_writeMany_live (s : Ideal α) (start : Nat) (vs : List α) (j : Nat) :
+    (s.writeMany start vs).live.lookup j =
+      if start ≤ j ∧ j < start + vs.length then some true else s.live.lookup j := by
+  induction vs generalizing s start with
+  | nil =>
+    have : ¬ (start ≤ j ∧ j < start + ([] : List α).length) := by simp
+    rw [if_neg this]; rfl
+  | cons v r ih =>
+    simp only [Ideal.writeMany]
+    rw [ih]
+    simp only [Ideal.write, List.lookup_cons, List.length_cons]
+    by_cases h1 : start + 1 ≤ j ∧ j < start + 1 + r.length
+    · rw [if_pos h1, if_pos (by omega)]
+    · rw [if_neg h1]
+      by_cases h2 : j = start
+      · subst h2
+        simp
+      · have : (j == start) = false := by simp [h2]
+        rw [this]
+        have : ¬ (start ≤ j ∧ j < start + (r.length + 1)) := by omega
+        rw [if_neg this]
+
 end Zk.Tree
